@@ -42,6 +42,18 @@ fixed("FX-C08-02", "C08", "fdd90a3", "same overlap seen by the slot-ownership mo
 fixed("FX-C17-01", "C17", "a291d9d", "Decoder fed one byte at a time decodes \"a\u00e9\u20acb\" (raw UTF-8) to a + five U+FFFD + b: a multi-byte character split across reads was replaced")
 fixed("FX-C09-01", "C09", "a291d9d", "same split multi-byte character defect seen as stream != buffer for chunk sizes 1..3")
 
+fixed("FX-C09-02", "C09", "8324c23", "a non-EOF reader error was dropped by Stream.read: reader failing after 1 of 123 -> value 1, nil error; every other reader error came back as a syntax error")
+fixed("FX-C09-03", "C09", "6f2d462", "a reader returning (0, nil) made Decoder fail with syntax errors on valid input")
+fixed("FX-C06-02", "C06", "3dc028a", "Path.Get / Path.Unmarshal panicked (reflect: call of reflect.Value.Type on zero Value) when the selected or traversed value is null")
+fixed("FX-C06-03", "C06", "9c62834", "Unmarshal({\"\\.b\":1}, &struct{}{}) panicked with index out of range in decodeKeyByBitmapUint8 (invalid escape in a key kept all lookup candidates)")
+fixed("FX-C05-01", "C05", "9c62834", "an invalid escape sequence in an object key of a struct destination was accepted")
+fixed("FX-C09-04", "C09", "57be1d1", "an escaped object key straddling a read boundary made Decoder fail (invalid character u as escaped char / expected colon after object key) or drop the member")
+fixed("FX-C15-01", "C15", "57be1d1", "Decoder fed 5-byte chunks failed on fully \\u-escaped keys")
+
+fixed("FX-C06-04", "C06", "0243e9f", "Compact/Indent of a 100000-deep tower: fatal out of memory / stack overflow (no nesting limit)")
+fixed("FX-C18-02", "C18", "0243e9f", "Compact/Indent accepted texts nested deeper than 10000 that encoding/json rejects")
+fixed("FX-C06-05", "C06", "3f05f4c", "Path.Unmarshal into a struct/slice/map panicked in castStruct & co. on null elements")
+
 # ------------------------------------------------------------------ C05
 ALL15 = r"(Valid|Unmarshal:.+|Decode:.+)"
 STREAM = r"(Valid|Decode:.+)"
